@@ -84,7 +84,7 @@ def compile_and_dump(binary, src):
     return funcs, r
 
 
-def run_traced(binary, src, mode="run", timeout=10, ins=True, max_events=30000, stdin=None):
+def run_traced(binary, src, mode="run", timeout=10, ins=True, max_events=30000, stdin=None, top=False):
     """Run a program with the trace hook on. Returns (result, events, partial)."""
     src = Path(src)
     u = uuid.uuid4().hex[:8]
@@ -96,6 +96,8 @@ def run_traced(binary, src, mode="run", timeout=10, ins=True, max_events=30000, 
     env = dict(MSCRIPT_VERIF_TRACE=str(tr), MSCRIPT_VERIF_DUMP=str(du))
     if not ins:
         env["MSCRIPT_VERIF_TRACE_INS"] = "0"
+    if top:
+        env["MSCRIPT_VERIF_TRACE_TOP"] = "1"
     if mode == "run":
         argv = [binary, "run", src.name, "-q"]
     else:
